@@ -391,7 +391,7 @@ def run_step(ps, w, menu, extra_assume=None):
     post = w.post()
     bad = []
     for p in post["problems"]:
-        bad.append(("store-state", p[0], p[1:]))
+        bad.append(("store-state:" + p[0], p[1:]))
     ok, m = ps.valid(w.inv_post(post))
     nob = 1
     if not ok:
@@ -407,11 +407,11 @@ def run_step(ps, w, menu, extra_assume=None):
                 bad.append(("result-class", res, "not implied by the pre-state"))
     if not matched:
         bad.append(("result-class", res, "not a documented outcome of this call"))
-    okm, _ = ps.valid(w.state_eq(post, exp))
-    nob += 1
-    if not okm:
-        which = [part for part in ("bind", "obj", "meta") if not ps.valid(w.state_eq(post, exp, (part,)))[0]]
-        bad.append(("post-state-differs-from-reference-model", ",".join(which)))
+    for part in ("bind", "obj", "meta"):
+        okm, _ = ps.valid(w.state_eq(post, exp, (part,)))
+        nob += 1
+        if not okm:
+            bad.append(("model:" + part, "post-state differs from the reference model"))
     ok4, _ = ps.valid(c04_formula(w, pre, post))
     nob += 1
     if not ok4:
@@ -421,6 +421,12 @@ def run_step(ps, w, menu, extra_assume=None):
         nob += 1
         if not okf:
             bad.append(("other-pid-references-changed", ""))
+        if isinstance(call, (StoreObj, Tag)):
+            bound = pre["bind"][call.i] >= 0
+            okb, _ = ps.valid(z3.Implies(bound, post["bind"][call.i] == pre["bind"][call.i]))
+            nob += 1
+            if not okb:
+                bad.append(("bound-pid-rebound", ""))
     for p in w.instance_problems(s):
         bad.append(("instance-state", p[0], p[1:]))
     for p in call.check_value(w, ps, val, res):
@@ -450,8 +456,8 @@ def explore_steps(w_args, menu_fn, splits=None, clauses=None, procs=None, deadli
     def worker(split):
         w = World(**w_args)
         menu = menu_fn(w)
-        lo, hi = split if split is not None else (0, len(menu))
-        ps = PathSym(w.inv(**(inv_kwargs or {})) + [CALLV >= lo, CALLV < hi])
+        idx = list(split) if split is not None else list(range(len(menu)))
+        ps = PathSym(w.inv(**(inv_kwargs or {})) + [z3.Or([CALLV == n for n in idx])])
         dl = (_t.time() + deadline_s) if deadline_s else None
         recs = ps.explore(lambda p: run_step(p, w, menu, extra_assume), deadline=dl)
         w.cleanup()
@@ -462,8 +468,7 @@ def explore_steps(w_args, menu_fn, splits=None, clauses=None, procs=None, deadli
         n = len(menu_fn(w0))
         import os
         k = procs or min(16, os.cpu_count() or 4)
-        step = max(1, (n + k - 1) // k)
-        splits = [(a, min(n, a + step)) for a in range(0, n, step)]
+        splits = [list(range(r, n, k)) for r in range(k) if r < n]
     return par_explore(worker, splits, procs)
 
 
